@@ -187,6 +187,27 @@ theorem refine_cost_monotone (L : Layout) (constraints : List Nat) (flat : List 
     Within (plan L constraints flat vmin vmax adjust).lb (plan L constraints flat vmin vmax adjust).ub x :=
   ⟨h.decrease, h.feasible⟩
 
+/-- squared deviation of a residual vector -/
+def sumsq (r : List K) : K := (r.map fun x => x * x).sum
+
+theorem sumsq_div (r : List K) (c : K) : sumsq (r.map (· / c)) = sumsq r / (c * c) := by
+  unfold sumsq
+  induction r with
+  | nil => simp
+  | cons x xs ih =>
+    simp only [List.map_cons, List.sum_cons] at ih ⊢
+    rw [ih]
+    by_cases hc : c = 0
+    · simp [hc]
+    · field_simp
+
+/-- **The unit in which the solver sees the deviations does not matter for the property's clause** (D23: since the repair the residual is
+divided by the intensity range, `Props/C05 residual_scale_spec`): the solver's cost — the squared deviation in that unit — of the result is not
+larger than the candidate's IF AND ONLY IF the squared deviation FROM THE IMAGE is not larger. -/
+theorem scaled_cost_order (r r0 : List K) (c : K) (hc : 0 < c) :
+    sumsq (r.map (· / c)) ≤ sumsq (r0.map (· / c)) ↔ sumsq r ≤ sumsq r0 := by
+  rw [sumsq_div, sumsq_div, div_le_div_iff_of_pos_right (mul_pos hc hc)]
+
 end ordered
 
 /-- non-vacuity: cylindrical grid (position coordinates 0 and 1 fixed), one amplitude -/
